@@ -94,13 +94,13 @@ macro_rules! k13 {
     };
 }
 
-//@ k13_sub_empty props=C18,C08 tier=quick expect=pass fns=substring :: substring("", from, to), offsets any usize: skipped (None), no panic
+//@ k13_sub_empty props=C18,C08:t tier=quick expect=pass fns=substring :: substring("", from, to), offsets any usize: skipped (None), no panic
 k13!(k13_sub_empty, [], 0, 4);
-//@ k13_sub_a1 props=C18,C08 tier=quick expect=pass fns=substring :: substring on a 1-byte ASCII string (symbolic char), offsets any usize: Some(chars from..to) iff from<to<=len else skipped
+//@ k13_sub_a1 props=C18,C08:t tier=quick expect=pass fns=substring :: substring on a 1-byte ASCII string (symbolic char), offsets any usize: Some(chars from..to) iff from<to<=len else skipped
 k13!(k13_sub_a1, [1], 1, 5);
 //@ k13_sub_a2 props=C18,C08 tier=quick expect=pass fns=substring :: substring on a 2-char ASCII string, offsets any usize
 k13!(k13_sub_a2, [1, 1], 2, 6);
-//@ k13_sub_a3 props=C18,C08 tier=quick expect=pass fns=substring :: substring on a 3-char ASCII string, offsets any usize
+//@ k13_sub_a3 props=C18,C08:t tier=quick expect=pass fns=substring :: substring on a 3-char ASCII string, offsets any usize
 k13!(k13_sub_a3, [1, 1, 1], 3, 7);
 //@ k13_sub_w2 props=C18,C08 tier=quick expect=pass fns=substring :: substring on a single 2-byte char: no offset pair may panic (offset 1 is inside the character)
 k13!(k13_sub_w2, [2], 2, 6);
